@@ -787,8 +787,15 @@ class CompartmentalSystem(Statement):
         return (
             self._t == other._t
             and nx.to_dict_of_dicts(self._g) == nx.to_dict_of_dicts(other._g)
-            and self.dosing_compartments == other.dosing_compartments
+            and self._dosing_compartments_or_empty() == other._dosing_compartments_or_empty()
         )
+
+    def _dosing_compartments_or_empty(self) -> tuple[Compartment, ...]:
+        # Systems without a dose (or without a central compartment) can still be compared
+        try:
+            return self.dosing_compartments
+        except ValueError:
+            return tuple()
 
     def __hash__(self):
         return hash((self._t, self._g))
